@@ -360,6 +360,12 @@ class CallMixin:
                 res += self.call_closure(node, s, f, args, kw)
             return res
         if isinstance(f, ModuleRef):
+            if f.name == "asyncio.create_task":
+                # the coroutine passed in is NOT run here: it becomes a concurrently scheduled task (a separate entry point of
+                # the interpreter, assumption A-seq); the call only yields a task handle
+                h = fresh(OPAQUE, "task")
+                st.assume(h.z != OPAQUE.null)
+                return [(st, h)]
             return self.call_external(node, st, f.name, None)
         if type(f).__name__ == "ContractFn":
             res = []
